@@ -100,6 +100,21 @@ def run_seeded(sd):
                         detail=(p.stdout + p.stderr)[:300])
         res = {}
         props = meta.get('detected_by_checks_of') or [meta['property']]
+        if meta.get('expect') == 'silent':
+            # a behaviour-preserving refactoring: no check may raise an alarm
+            ids = [json.loads(l)['id'] for l in open(os.path.join(
+                VERIF, 'properties.jsonl'))]
+            alarms = []
+            for pid in ids:
+                rc, out = run_check(d, pid)
+                res[pid] = rc
+                if rc == 1:
+                    alarms.append(pid)
+            okall = not alarms
+            return dict(id=os.path.basename(sd), prop=meta['property'],
+                        ok=okall, status='ok' if okall else 'FALSE-ALARM',
+                        rc={k: v for k, v in res.items() if v},
+                        expect='silent', detail=' '.join(alarms))
         okall = False
         details = []
         for pid in props:
